@@ -5,7 +5,7 @@ import random
 from harness import core, htmlnorm, treegen, trees, xdoc
 
 GEN = ['gen_tables', 'gen_regex', 'gen_config', 'gen_escapes', 'gen_core']
-THEOREMS = ['C03_fragment_rules_instance', 'C03_thematic_break', 'C03_thematic_configs', 'C03_setext_heading', 'C03_setext_hypotheses', 'C03_indented_code_block', 'C03_indented_code_hypotheses', 'C03_link_scanners_are_the_source', 'C03_fragment_parses', 'C03_fragment_token_tree', 'C03_fragment_hypotheses', 'C03_fragment_fuel_suffices', 'C03_fragment_document',
+THEOREMS = ['C03_fragment_emphasis_instance', 'C03_fragment_rules_instance', 'C03_thematic_break', 'C03_thematic_configs', 'C03_setext_heading', 'C03_setext_hypotheses', 'C03_indented_code_block', 'C03_indented_code_hypotheses', 'C03_link_scanners_are_the_source', 'C03_fragment_parses', 'C03_fragment_token_tree', 'C03_fragment_hypotheses', 'C03_fragment_fuel_suffices', 'C03_fragment_document',
             'C03_fragment_html', 'C03_fragment_markdown_html', 'C03_fragment_html_instance', 'C03_fragment_paragraph_lines_instance', 'C03_fragment_headings_instance', 'C03_outline_lists', 'C03_outline_html', 'C03_outline_instance',
             'C03_fragment_document_markdown', 'C03_fragment_document_configs', 'C03_bounded_trees', 'C03_family_is_not_vacuous']
 TRUSTED = ['harness/treegen.py: the tree grammar, the speller (every free choice drawn and counted) and the direct HTML writer - the independent oracle; '
@@ -71,6 +71,8 @@ FRAG_CONT = [w for w in FRAG_FIRST if w[0] != '=']
 FRAG_HEAD = [w for w in FRAG_WORDS if '#' not in w]
 
 
+EM_WORDS = ['alpha', 'b', 'Zed', 'x1', 'end.', 'q)', '(r', 'a-b', 'c+d', 'e=f', 'k,', '"l"', "m'", 'n:', 'o;', '2.5']
+EM_INNER = ['this', 'Zed', 'x1', 'two', 'a-b', 'q, r', '2.5', 'é', '中']
 FRAG_CODE = ['code', '  x = 1', '', '# not a heading', '- not a list', '> not a quote', '    deep', '*a*', '<b>', '| a |', '[x]: /y', 'a  b  ']
 
 
@@ -81,6 +83,11 @@ def frag_tree(rng, depth):
             ch = rng.choice('`~')
             body = [l for l in (rng.choice(FRAG_CODE) for _ in range(rng.randint(0, 4))) if not l.lstrip(' ').startswith(ch) and (l == '' or l.strip(' '))]
             return ('f', ch * rng.randint(3, 5), body)
+        if rng.random() < 0.15:                              # a one-line paragraph with one emphasised phrase (leaf FEm)
+            pre = ' '.join([rng.choice(FRAG_FIRST)] + [rng.choice(EM_WORDS) for _ in range(rng.randint(0, 3))]) + rng.choice([' ', ' (', ', ', ': "'])
+            w = ' '.join(rng.choice(EM_INNER) for _ in range(rng.randint(1, 3)))
+            post = rng.choice(['', '.', ' end', ', then more', ')', '" ok', '; z', '!x'.replace('!', '?')])
+            return ('e', pre, rng.choice('*_') * rng.choice([1, 2]), w, post)
         if rng.random() < 0.12:                              # a thematic break: three or more of one of - _ *
             return ('r', rng.choice('-_*') * rng.randint(3, 7))
         if rng.random() < 0.2:                               # an ATX heading: title without '#', not beginning or ending with white space
@@ -109,6 +116,8 @@ def frag_spell(t):
         return ['#' * t[1] + ' ' + t[2]]
     if t[0] == 'r':
         return [t[1]]
+    if t[0] == 'e':
+        return [t[1] + t[2] + t[3] + t[2] + t[4]]
     if t[0] == 'f':
         return [t[1]] + t[2] + [t[1]]
     kids = t[-1]
@@ -136,6 +145,9 @@ def frag_expect(t, ln):
         return [trees.TAGS['Heading'], t[1], '', [[0, t[2]]]], [ln]
     if t[0] == 'r':
         return [trees.TAGS['ThematicBreak'], t[1]], [ln]
+    if t[0] == 'e':
+        em = [trees.TAGS['Strong' if len(t[2]) == 2 else 'Emphasis'], t[2][0], [[0, t[3]]]]
+        return [trees.TAGS['Paragraph'], [[0, t[1]], em] + ([[0, t[4]]] if t[4] else [])], [ln]
     if t[0] == 'f':
         return [trees.TAGS['CodeFence'], 0, t[1], '', '', ''.join(l + '\n' for l in t[2])], [ln]
     kids = t[-1]
@@ -163,6 +175,10 @@ def frag_html(t, tight):
         return '<h%d>%s</h%d>' % (t[1], esc(t[2]), t[1])
     if t[0] == 'r':
         return '<hr />'
+    if t[0] == 'e':
+        tag = 'strong' if len(t[2]) == 2 else 'em'
+        inner = esc(t[1]) + '<%s>%s</%s>' % (tag, esc(t[3]), tag) + esc(t[4])
+        return inner if tight else '<p>' + inner + '</p>'
     if t[0] == 'f':
         return '<pre><code>' + esc(''.join(l + '\n' for l in t[2])) + '</code></pre>'
     kids = t[-1]
@@ -174,8 +190,8 @@ def frag_html(t, tight):
     else:
         n = int(t[1][:-1])
         op, cl = ('<ol>' if n == 1 else '<ol start="%d">' % n), '</ol>'
-    return (op + '\n<li>' + ('' if tg and kids[0][0] == 'p' else '\n') + '\n'.join(frag_html(k, tg) for k in kids)
-            + ('' if tg and kids[-1][0] == 'p' else '\n') + '</li>\n' + cl)
+    return (op + '\n<li>' + ('' if tg and kids[0][0] in 'pe' else '\n') + '\n'.join(frag_html(k, tg) for k in kids)
+            + ('' if tg and kids[-1][0] in 'pe' else '\n') + '</li>\n' + cl)
 
 
 def outline_forest(rng, depth, width):
